@@ -24,7 +24,7 @@ DESIGN_REF = "DESIGN.md section 6 (C13)"
 RULE = (
     "Hypothesis cases: binary input with <=10 object / <=6 species leaves, a constructed valid species mapping (any valid event per node), optional "
     "ordered or unordered labelling, 24 drawn node sizes in [1,100] used by call position, about half of the numeric DrawParams fields perturbed in "
-    "(0,50], colours on some nodes; both orientations per case.  Layout: each object node has exactly one non-loss branch, held by the layout of its "
+    "(0,50], colours on some nodes, ancestral node names of both trees blanked in about a third of the cases; both orientations per case.  Layout: each object node has exactly one non-loss branch, held by the layout of its "
     "mapped species, of the evaluator's kind; the multiset of species holding loss branches == species of the skipped edges by the independent rule; a "
     "loss branch has exactly one of left/right.  TikZ: statement counts per kind (extant, speciation, duplication, transfer, loss, transfer arrow) == "
     "model counts; every event node position lies in a layout box of the same kind; loss markers match loss branches one-to-one on the trunk edge of "
@@ -63,6 +63,7 @@ def check(case):
             transferred.append(r if k == "TL" else l)
     for orientation in ("VERTICAL", "HORIZONTAL"):
         out, lay, code, params, _stub = rc.compute(case, orientation)
+        names = _stub.names
         tag = orientation.lower()
         # ---- layout -------------------------------------------------------
         seen = Counter()
@@ -75,17 +76,17 @@ def check(case):
                 if rc.is_pseudo(gene):
                     if kind != "LOSS":
                         raise Violation(f"layout.{tag}.pseudo-gene-not-a-loss", observed=kind, expected="LOSS")
-                    got_loss[species.name] += 1
+                    got_loss[names[species]] += 1
                     if (br.left is None) == (br.right is None):
                         raise Violation(f"layout.{tag}.loss-branch-children", observed=(br.left is None, br.right is None), expected="exactly one kept child")
                     loss_branches.append((species, sub, br))
                     continue
-                name = gene.name
+                name = names[gene]
                 seen[name] += 1
                 if kind == "LOSS":
                     raise Violation(f"layout.{tag}.object-node-drawn-as-loss", observed=name, expected=kinds.get(name))
-                if m[name] != species.name:
-                    raise Violation(f"layout.{tag}.event-in-wrong-species", observed=species.name, expected=m[name], extra={"node": name})
+                if m[name] != names[species]:
+                    raise Violation(f"layout.{tag}.event-in-wrong-species", observed=names[species], expected=m[name], extra={"node": name})
                 if kind != kinds[name]:
                     raise Violation(f"layout.{tag}.event-kind", observed=kind, expected=kinds[name], extra={"node": name})
                 boxes[kind].append(br.rect)
@@ -124,11 +125,11 @@ def check(case):
             hit = next((nd for nd in free if any(_close(nd["pos"], cd) for cd in cands)), None)
             if hit is None:
                 raise Violation(f"tikz.{tag}.loss-marker-not-in-its-species", observed=[nd["pos"] for nd in free][:4],
-                                expected={"species": species.name, "candidates": cands})
+                                expected={"species": names[species], "candidates": cands})
             free.remove(hit)
         # arrows end at the transferred child
-        onode = {n.name: n for n in out.input.object_tree.traverse()}
-        snode = {n.name: n for n in out.input.species_lca.tree.traverse()}
+        onode = {names[n]: n for n in out.input.object_tree.traverse()}
+        snode = {names[n]: n for n in out.input.species_lca.tree.traverse()}
         want = []
         for child in transferred:
             sub = lay[snode[m[child]]]
